@@ -51,11 +51,16 @@ def _font(draw):
     spec = {"info": {"unitsPerEm": 1000}, "glyphs": glyphs, "kerning": kern, "lib": {"public.openTypeCategories": {n: ("mark" if n in MARKS else "base") for n in gn}}}
     mode = draw(st.sampled_from(["none", "dflt", "some", "some", "all"]))
     tags = {"none": [], "dflt": [], "some": draw(st.lists(st.sampled_from(TAGS), unique=True, max_size=3)), "all": list(TAGS)}[mode]
-    fea = "" if mode == "none" else "languagesystem DFLT dflt;\n"
+    stmts = []
     for t in tags:
-        fea += "languagesystem %s dflt;\n" % t
+        stmts.append("languagesystem %s dflt;\n" % t)
         if draw(st.sampled_from([True, False, False])):
-            fea += "languagesystem %s %s;\n" % (t, draw(st.sampled_from(["MAR ", "TRK ", "URD "])))
+            for lang in draw(st.lists(st.sampled_from(["MAR ", "TRK ", "URD ", "AZE "]), min_size=1, max_size=2, unique=True)):
+                stmts.append("languagesystem %s %s;\n" % (t, lang))
+    if len(stmts) > 1 and draw(st.sampled_from([True, False])):
+        # any declaration order: a script's languages before its dflt, scripts interleaved (only DFLT dflt has to come first)
+        stmts = list(draw(st.permutations(stmts)))
+    fea = ("" if mode == "none" else "languagesystem DFLT dflt;\n") + "".join(stmts)
     spec["features"] = fea
     if len(gn) > 3 and draw(st.sampled_from([True, False, False])):
         spec["lib"]["public.skipExportGlyphs"] = [draw(st.sampled_from(gn))]
@@ -155,6 +160,32 @@ def run_case(case, ctx):
                         script=tag, language=lang, reachable=sorted(have), declared={k: sorted(v) for k, v in declared.items()},
                         scripts_with_a_single_script_exported_glyph=sorted(single),
                     )
+    order = [(m.group(1), m.group(2).strip()) for m in re.finditer(r"languagesystem\s+(\S+)\s+(\S+)\s*;", spec["features"])]
+    if any(l != "dflt" and (sc_, "dflt") in order[i + 1:] for i, (sc_, l) in enumerate(order)):
+        ctx.label("language-declared-before-its-script's-dflt")
+    if any(order[i][0] != order[i + 1][0] and order[i][0] in [o[0] for o in order[i + 2:]] for i in range(len(order) - 1)):
+        ctx.label("scripts-interleaved-in-declarations")
+    # every language system of one script exposes the same generated features acting on that script's glyphs
+    GEN = ("kern", "dist", "mark", "mkmk", "abvm", "blwm", "curs")
+    for rec in gp.ScriptList.ScriptRecord:
+        tag = rec.ScriptTag
+        if tag == "DFLT":
+            continue
+        S_ = ud.ot_tag_to_script(tag)
+        systems = [("dflt", rec.Script.DefaultLangSys)] + [(l.LangSysTag.strip(), l.LangSys) for l in rec.Script.LangSysRecord]
+        per = {}
+        for lang, ls in systems:
+            if ls is None:
+                continue
+            idx = list(ls.FeatureIndex) + ([ls.ReqFeatureIndex] if ls.ReqFeatureIndex != 0xFFFF else [])
+            per[lang] = {gp.FeatureList.FeatureRecord[i].FeatureTag for i in idx} & {ft for ft in GEN if ft in feats and any(S_ in scx.get(g, set()) or not scx.get(g) for g in feats[ft])}
+        if len(per) > 1:
+            union = set().union(*per.values())
+            for lang, have in per.items():
+                if have != union:
+                    raise Violation("a language system of a script lacks a generated positioning feature that another language system of the same script exposes", script=tag, language=lang,
+                                    missing=sorted(union - have), per_language={k: sorted(v) for k, v in per.items()}, features=spec["features"])
+            ctx.label("script-with-several-language-systems")
     ctx.count("language-systems-checked", checked)
     ctx.count("language-systems-in-known-finding-class(KF-C20-1)", known)
     if known:
